@@ -123,6 +123,7 @@ Definition decode_wop (row : list Z) : option wop :=
   | [2; h]%Z => Some (WClone (zn h)) | [3; h]%Z => Some (WWake (zn h))
   | [4; h]%Z => Some (WWakeByRef (zn h)) | [5; h]%Z => Some (WDrop (zn h))
   | [6]%Z => Some WEndPoll
+  | [7]%Z => Some WEndPoll      (* the executor drops its own waker: no effect on the foreign side's state; printed like an end of poll *)
   | _ => None
   end.
 Fixpoint decode_ws (rows : list (list Z)) : option (list wop) :=
